@@ -371,6 +371,63 @@ func (c *Ctx) c02Sweep(snap *load.FuncInfo) {
 		r.Check(factEq(g, v.ID, true, isV, isZero), "C02.N6", snap.Name(), "the built-in expiration replaces only an unset one", c.P.Pos(as.Pos()), "constant assigned under "+id.Name+" == 0",
 			"the compaction horizon uses the built-in expiration although one is configured (and leaves an unset one at zero): entries that sessions of the configured lifetime can still ask for are compacted away")
 	}
+	// ---------- N6d: the expiration the horizon is computed from cannot be zero: the FSM's cached value is only set when a
+	// Config entry is applied in this process (it is zero after every restart), so either Snapshot or sessionExpiration()
+	// replaces a zero by a positive constant
+	{
+		hasFallback := func(fi *load.FuncInfo) bool {
+			if fi == nil || fi.Body() == nil {
+				return false
+			}
+			fin := fi.Info()
+			fg := c.Graph(fi)
+			found := false
+			for _, v := range fg.Nodes() {
+				var rhs ast.Expr
+				var lhsObj types.Object
+				switch x := v.Node.(type) {
+				case *ast.AssignStmt:
+					if x.Tok == token.ASSIGN && len(x.Lhs) == 1 && len(x.Rhs) == 1 {
+						rhs = x.Rhs[0]
+						if id, ok := x.Lhs[0].(*ast.Ident); ok {
+							lhsObj = astx.Obj(fin, id)
+						}
+					}
+				case *ast.ReturnStmt:
+					if len(x.Results) == 1 {
+						rhs = x.Results[0]
+					}
+				}
+				if rhs == nil {
+					continue
+				}
+				tv, okc := fin.Types[rhs]
+				if !okc || tv.Value == nil || !astx.IsNamed(tv.Type, "time", "Duration") {
+					continue
+				}
+				if z, ok := astx.ConstInt(fin, rhs); ok && z <= 0 {
+					continue
+				}
+				// under <something> == 0
+				for _, f := range fg.FactsAt(v.ID) {
+					be, ok := ast.Unparen(f.Expr).(*ast.BinaryExpr)
+					if !ok || f.Tag != nil {
+						continue
+					}
+					isZero := func(e ast.Expr) bool { z, ok := astx.ConstInt(fin, e); return ok && z == 0 }
+					if ((be.Op == token.EQL && f.Val) || (be.Op == token.NEQ && !f.Val) || (be.Op == token.LEQ && f.Val)) && (isZero(be.Y) || isZero(be.X)) {
+						if lhsObj == nil || astx.Mentions(fin, be, lhsObj) {
+							found = true
+						}
+					}
+				}
+			}
+			return found
+		}
+		ok := hasFallback(snap) || hasFallback(c.P.Func("main.(*FSM).sessionExpiration"))
+		r.Check(ok, "C02.N6", snap.Name(), "an unset session expiration is replaced by a built-in one", c.P.Pos(snap.Node().Pos()), "a positive constant duration under <expiration> == 0, in Snapshot or in sessionExpiration()",
+			"the compaction horizon is computed from the FSM's cached session expiration without a fall-back for zero: that cache is only filled when a Config entry is applied in this process, so after every restart the horizon is a few seconds — output and entries that live sessions still need are compacted away")
+	}
 	// ---------- N6c: the time an entry is judged by: its own UnixNano, the id only for entries from before UnixNano existed
 	if ts := c.MustFunc("robust.(*Message).Timestamp"); ts != nil && ts.Body() != nil {
 		ti := ts.Info()
